@@ -21,6 +21,7 @@ use std::sync::Arc;
 const REQ: &str = "Common.Base Index.Model_Prune";
 const CLASS_F23: &str = "legacy_pushdown_float_nan_null";
 const CLASS_ZM_DEL: &str = "zonemap_built_over_deletions";
+const CLASS_ZM_FRAG: &str = "zonemap_fragment_boundary";
 const NAN_KEY: i64 = 0x7fc0_0000;
 
 /// key of an f32 under total_cmp (monotone): what ScalarValue::partial_cmp and arrow min/max order by
@@ -202,7 +203,10 @@ async fn zm_e2e(args: &Args, sink: &mut Sink) {
         let schema = Arc::new(Schema::new(vec![
             Field::new("id", DataType::Int32, false), Field::new("x", DataType::Int32, true), Field::new("f", DataType::Float32, true), Field::new("s", DataType::Utf8, true),
         ]));
-        let params = WriteParams { max_rows_per_file: *rng.pick(&[7usize, 16, 100]), max_rows_per_group: 4, ..Default::default() };
+        let per_file = *rng.pick(&[7usize, 16, 100]);
+        let params = WriteParams { max_rows_per_file: per_file, max_rows_per_group: 4, ..Default::default() };
+        // several fragments whose size is not a multiple of rows_per_zone (finding zonemap_fragment_boundary)
+        let ragged = n > per_file && (per_file as u64) % rpz != 0;
         let mut ds = write_ds(&dir, &format!("e{t}"), schema, vec![Arc::new(Int32Array::from((0..n as i32).collect::<Vec<_>>())), Arc::new(Int32Array::from(xs.clone())), Arc::new(Float32Array::from(fs.clone())), Arc::new(StringArray::from(ss.clone()))], params).await;
         let del_before = rng.chance(1, 2);
         let dels: Vec<usize> = (0..n).filter(|_| rng.chance(1, 5)).collect();
@@ -238,8 +242,11 @@ async fn zm_e2e(args: &Args, sink: &mut Sink) {
             } else if del_before && !dels.is_empty() && with.is_ok() && without.is_ok() {
                 sink.count("zm_e2e/known/built_over_deletions");
                 sink.oracle_fail(Some(CLASS_ZM_DEL), "zone map built after deletions: the indexed scan loses rows", json!({"filter": f, "rows_per_zone": rpz, "deleted": dels, "with_index": format!("{with:?}"), "without": format!("{without:?}")}));
+            } else if ragged && with.is_ok() && without.is_ok() {
+                sink.count("zm_e2e/known/fragment_boundary");
+                sink.oracle_fail(Some(CLASS_ZM_FRAG), "zone map over several fragments whose size is not a multiple of rows_per_zone: the indexed scan loses rows", json!({"filter": f, "rows": n, "max_rows_per_file": per_file, "rows_per_zone": rpz, "deleted_after_index": dels, "with_index": format!("{with:?}"), "without": format!("{without:?}")}));
             } else {
-                sink.oracle_fail(None, "scan with the zone map index differs from the scan without it", json!({"filter": f, "rows_per_zone": rpz, "deleted_before_index_creation": del_before, "deleted": dels, "x": format!("{xs:?}"), "with_index": format!("{with:?}"), "without": format!("{without:?}")}));
+                sink.oracle_fail(None, "scan with the zone map index differs from the scan without it", json!({"rows": n, "max_rows_per_file": per_file, "filter": f, "rows_per_zone": rpz, "deleted_before_index_creation": del_before, "deleted": dels, "x": format!("{xs:?}"), "with_index": format!("{with:?}"), "without": format!("{without:?}")}));
             }
         }
     }
